@@ -186,6 +186,9 @@ def gen_history(rng):
         assets.add_assets(prog, prng)
         for c in prog["classes"].values():
             c.pop("base", None)
+            c.pop("base2", None)
+            if isinstance((c.get("media") or {}).get("extend"), list):
+                del c["media"]["extend"]
         hist.append({"prog": prog, "typ": rng.choice(["document", "fragment"]), "route": rng.choice(["component", "template"]), "clear_before": s > 0 and rng.random() < 0.35, "reuse": rng.randrange(s) if s and rng.random() < 0.3 else None})
     return hist
 
